@@ -183,6 +183,9 @@ def names_for(seqs, mode, maxlen=3):
     if '-' not in alpha:
         alpha = alpha[:3] + '-'
     names = list(N.all_names(alpha + ('/' if mode == 'gl' else ''), maxlen))
+    # ... and a few of them with a newline at the end (an ordinary character: no pattern of a list may treat `name` and
+    # `name + newline` alike unless it says so)
+    names += [n + '\n' for n in names[:40:2] if n and not n.endswith('/')]
     return names
 
 
